@@ -30,6 +30,13 @@ ASSUMPTIONS = ["generated hourly inputs have at most 3 decimals so the documente
 BUDGET = {"quick": dict(examples=24, wall_guard_s=600), "thorough": dict(examples=220, wall_guard_s=3600)}
 
 
+# sources users attach to their inputs: names equal to the library's own constants but with another link, two sources
+# sharing a name, no link at all
+SOURCES = [["user data", "https://example.org/my-measurements"], ["hypothesis", None],
+           ["Internal study", "https://example.org/study-v1"], ["Internal study", "https://example.org/study-v2"],
+           ["Base ADEME_V19", "https://example.org/ademe-local-copy"], ["custom source without link", None]]
+
+
 @st.composite
 def cases(draw):
     builders = draw(st.booleans())
@@ -42,8 +49,9 @@ def cases(draw):
     except E.Inapplicable:
         hist, cur = [], spec
     after = draw(G.simple_edit(cur))
+    sources = draw(st.lists(st.tuples(st.integers(0, 10 ** 6), st.sampled_from(SOURCES)), min_size=0, max_size=5))
     return {"spec": spec, "id_seed": draw(st.integers(0, 2 ** 20)), "history": hist,
-            "save_calc": draw(st.booleans()), "edit_after_load": after}
+            "save_calc": draw(st.booleans()), "edit_after_load": after, "sources": [list(x) for x in sources]}
 
 
 def describe_inputs(obj):
@@ -126,6 +134,17 @@ def check(case, ctx):
     spec = case["spec"]
     labels = ["save_calc=%s" % case["save_calc"]]
     quiet = type("Q", (), {"violation": lambda self, *a, **k: False})()
+    if case.get("sources"):
+        # user-provided sources on some quantity inputs (given at construction, as a user would)
+        spec = copy.deepcopy(spec)
+        slots = [(n, a) for n in sorted(S.spec_reachable(spec)) for a in S.quantity_inputs(spec["objs"][n]["cls"])]
+        for pick, src in case["sources"]:
+            n, a = slots[pick % len(slots)]
+            e = spec["objs"][n]
+            val = e.get(a) or S.default_quantity(e["cls"], a)
+            e[a] = [val[0], val[1], list(src)]
+        case = dict(case, spec=spec)
+        labels.append("custom_sources")
     summary = M.run_history(case, quiet, compare_fresh=False, check_totals=False, check_undo=False)
     if summary.get("live") is None:
         ctx.case(case, False, labels + ["history_" + summary["status"]])
